@@ -74,9 +74,9 @@ def run(tier):
                     cases.append(cmds)
                     meta.append((T, mode, pattern, len(parts), K, len(cmds)))
     # LONG programs: hundreds of growths in one instance (a growth policy that changes with the size, protection of the pages added
-    # late, a step computed in a narrow type): 300 kB and 1.2 MB of code (thorough: 3 and 8 MiB), compared with a caller buffer of that
+    # late, a step computed in a narrow type): 300 kB, 1.2 MB, 2 MiB and 4 MiB of code (thorough: also 3 and 8 MiB), compared with a caller buffer of that
     # size after every call and executed from the first byte to the last; with forced moves and with the kernel's own mremap
-    for bi, T in enumerate([300000 + 7, 1200000 + 13] if not full else [300007, 1200013, 1048576 + 5, 2 * 1048576 - 9, 3 * 1048576 + 1, 8 * 1048576 + 3]):
+    for bi, T in enumerate([300000 + 7, 1200000 + 13, 2 * 1048576 + 4099, 4 * 1048576 + 77] if not full else [300007, 1200013, 1048576 + 5, 2 * 1048576 - 9, 3 * 1048576 + 1, 8 * 1048576 + 3]):
         for mode, pre in (("plain", []), ("fit17", ["chunk %d 17"]), ("count16", None)):
             if mode != "plain" and T > 2 * 1048576:
                 continue
@@ -207,7 +207,7 @@ def run(tier):
         else:
             v.distinct(("jump", tuple(steps)))
     v.cov["rule"] = ("executable programs (multi-byte-nop sled + mov rax,K + ret) whose plain length is 6000*m + r for every r in -24..24 (m = %s) so the last instructions start at every distance from the growth "
-                     "threshold; single call and 2-50 calls; plain / chunk fitting (8 sizes) / counting; long programs of 300 kB and 1.2 MB of code (thorough: up to 8 MiB: > 1000 growths in one instance) compared and executed the same way; ld --wrap mremap forces EVERY growth to move the mapping (old range unmapped). After every call "
+                     "threshold; single call and 2-50 calls; plain / chunk fitting (8 sizes) / counting; long programs of 300 kB .. 4 MiB of code (thorough: up to 8 MiB: > 1000 growths in one instance) compared and executed the same way; ld --wrap mremap forces EVERY growth to move the mapping (old range unmapped). After every call "
                      "(offset, FNV hash of asm_get_code[0,offset)) must equal the same calls on a 1 MiB caller buffer, and calling asm_get_code() must return K; plus sequences of asm_set_offset (ahead of / behind the code so far, up to 300000) + assemble, each call's region and offset compared with the caller buffer" % mults)
     v.cov["exhaustive"] = False
     v.cov.update(stats)
